@@ -116,7 +116,7 @@ def make_zip(members):
     return buf.getvalue()
 
 
-BENIGN_ZIP = [("f1.txt", False), ("sub/", True), ("sub/f2.txt", False)]
+BENIGN_ZIP = [("f1.txt", False), ("sub/", True), ("sub/f2.txt", False), ("precious.txt", False)]
 
 
 def documented_dest(cwd, name, output, output_kind):
@@ -227,6 +227,14 @@ def judge(case, root, cwd, dest, announced, before, after, result):
     if case["output"] is None and ok:
         if os.path.dirname(dest) != cwd or dest == cwd:
             flag("destination", "not-a-child", "succeeded with destination %s which is not a child of the working directory" % rel(dest))
+    if case["output_kind"] == "existing-dir" and ok:
+        target = os.path.abspath(os.path.join(cwd, case["output"]))
+        if os.path.dirname(dest) != target or dest == target:
+            flag("destination", "not-a-child-of-output-dir",
+                 "succeeded with destination %s which is not a child of the --output-file directory %s" % (rel(dest), rel(target)))
+    if ok and dest in before and before[dest][0] == "dir":
+        flag("refuse-existing", "unpacked-over-existing-directory",
+             "the destination %s was an existing directory and the transfer succeeded (merged into it)" % rel(dest))
     for p in changed:
         inside = (p == dest or p.startswith(dest + os.sep))
         tmp = (p == dest + ".tmp")
